@@ -67,8 +67,8 @@ Print Assumptions C05_sse_missing_unlock_refuted.
     until the handler has returned it or the ticker can step; a ticker inside a flush can continue unless the handler
     holds the mutex, and then the handler can; a ticker between flushes can see the signal as soon as it is sent - so
     the handler returns and the ticker goroutine ends *)
-Theorem C05_multipart_goroutines_never_stuck : forall rs tr s,
-  mprun true (mpinit rs) tr = Some s ->
+Theorem C05_multipart_goroutines_never_stuck : forall rs o tr s,
+  mprun true (mpinit_open rs o) tr = Some s ->
   (returned s = false -> mpstep true s MLHandler <> None \/ mpstep true s MLTicker <> None) /\
   (m_k s = MKFlush -> mpstep true s MLTicker <> None \/ mpstep true s MLHandler <> None) /\
   (m_k s = MKSelect -> m_done s = true -> mpstep true s MLSeeDone <> None).
@@ -78,7 +78,7 @@ Print Assumptions C05_multipart_goroutines_never_stuck.
 Example C05_multipart_nonvacuous :
   exists s, mprun true (mpinit [1; 2; 3]%nat)
               [MLHandler; MLTick; MLTicker; MLTicker; MLTicker; MLTicker; MLTicker; MLTicker; MLTicker; MLHandler; MLHandler; MLHandler;
-               MLHandler; MLHandler; MLHandler; MLHandler; MLHandler; MLHandler; MLHandler; MLHandler; MLHandler; MLTick; MLTicker; MLTicker; MLTicker; MLSeeDone] = Some s /\
+               MLHandler; MLHandler; MLHandler; MLHandler; MLHandler; MLHandler; MLHandler; MLHandler; MLHandler; MLHandler; MLHandler; MLHandler; MLTick; MLTicker; MLTicker; MLTicker; MLSeeDone] = Some s /\
             returned s = true /\ m_k s = MKEnd /\ m_out s = [(MK, [1]); (MH, [2; 3])]%nat.
 Proof. exact mp_sample_runs. Qed.
 
